@@ -4,8 +4,16 @@ From Coq Require Import Strings.String Strings.Byte.
 From Coq Require Import List NArith ZArith.
 From Goit Require Import Bytes Sha1 Obj BytesFacts ObjFacts.
 From Goit Require Import World Repo BranchFacts ExactFacts ObjCmdFacts.
+From Goit Require Import Bridge.
 Import ListNotations.
 Local Open Scope N_scope.
+
+(* T0 (tie to the source): every regexp literal of the current Go source denotes
+   the same language, with the same anchoring, as the pattern of the model — proved
+   by running the verified equivalence checker on SrcRegex.v, which is regenerated
+   from /repo on every run (see Bridge.v) *)
+Theorem C01_source_patterns_are_the_models : source_patterns_agree.
+Proof. exact source_patterns. Qed.
 
 (* T1: what GetObject's decoder makes of "<kind> <len>\0<bytes>" is (kind, bytes),
    for every kind and every byte string (the size guard is int64, 8 EiB) *)
@@ -108,3 +116,4 @@ Print Assumptions C01_add_then_cat_file.
 Print Assumptions C01_blob_id_is_gits.
 Print Assumptions C01_cat_file_integrity.
 Print Assumptions C01_objects_never_lost.
+Print Assumptions C01_source_patterns_are_the_models.
